@@ -11,7 +11,17 @@ fn pr_dt(dt: &DateTime) -> String {
     format!("dt {} {} {} {} {} {}", dt.year, dt.month, dt.day, dt.hour, dt.min, dt.sec)
 }
 
+/// The text of an instant must not depend on what was converted before it on the same thread: before every
+/// conversion another instant is converted -- of a later day, an earlier day or the next day, by s mod 3 -- and the
+/// result thrown away.
 fn iso(s: u64) -> String {
+    let far = 86400 * (1 + s % 400);
+    let other = match s % 3 {
+        0 if s + far < 253_402_300_800 => s + far,
+        1 => s.saturating_sub(far),
+        _ => if s + 86400 < 253_402_300_800 { s + 86400 } else { s - 86400 },
+    };
+    let _ = (SystemTime::UNIX_EPOCH + Duration::from_secs(other)).iso8601_utc();
     (SystemTime::UNIX_EPOCH + Duration::from_secs(s)).iso8601_utc()
 }
 
